@@ -35,7 +35,8 @@ Qed.
 Lemma equalize_keeps : forall pl c ml,
   let c' := equalize pl (c, ml) in
   cs c' = cs c /\ ca c' = ca c /\ cn c' = cn c /\
-  cf c' = cf c /\ cbaud c' = cbaud c /\ cslot c' = cslot c /\ coff c' = coff c.
+  cf c' = cf c /\ cbaud c' = cbaud c /\ cslot c' = cslot c /\ coff c' = coff c /\
+  cpmd2 c' = cpmd2 c /\ cpdl2 c' = cpdl2 c.
 Proof. intros pl c ml. cbn. repeat split. Qed.
 
 (* ------------------------------------------------------------------ lists *)
@@ -118,7 +119,7 @@ Proof.
 Qed.
 
 Lemma propagate_inv : forall r deg from l o,
-  propagate r deg from l = Ok o ->
+  propagate_power r deg from l = Ok o ->
   exists pl mls mx rin rtg,
     resolve r deg = Some pl /\ path_maxloss r from deg l = Ok (mls, mx) /\
     zfind from (refin r) = Some rin /\ ref_target r deg = Ok (Some rtg) /\
@@ -126,7 +127,7 @@ Lemma propagate_inv : forall r deg from l o,
     o_loss o = map (fun cc => cp (fst cc) - cp (snd cc)) (combine l (o_chans o)) /\
     o_ref_out o = Qmin (rin - mx) rtg /\ o_ref_loss o = rin - o_ref_out o.
 Proof.
-  intros r deg from l o H. unfold propagate in H.
+  intros r deg from l o H. unfold propagate_power in H.
   destruct (path_maxloss r from deg l) as [[mls mx] | e] eqn:Hm; cbn [bind] in H; [| discriminate].
   destruct (ref_target r deg) as [rt | e] eqn:Hr; cbn [bind] in H; [| discriminate].
   destruct (zfind from (refin r)) as [rin |] eqn:Hi; [| discriminate].
@@ -137,8 +138,8 @@ Proof.
 Qed.
 
 (* ------------------------------------------------------------------ the crossing theorems, for every spectrum *)
-Lemma roadm_formula : forall r deg from l o,
-  propagate r deg from l = Ok o ->
+Lemma pw_roadm_formula : forall r deg from l o,
+  propagate_power r deg from l = Ok o ->
   exists pl mls mx,
     resolve r deg = Some pl /\ path_maxloss r from deg l = Ok (mls, mx) /\
     length mls = length l /\ length (o_chans o) = length l /\
@@ -153,6 +154,189 @@ Proof.
   - intros i c ml c' (Hc & Hml & Hc'). rewrite Ho in Hc'.
     rewrite (nth_error_map_combine _ _ _ (equalize pl) l mls i c ml Hc Hml) in Hc'.
     inversion Hc'; subst. apply equalize_formula.
+Qed.
+
+Lemma pw_roadm_no_gain : forall r deg from l o,
+  propagate_power r deg from l = Ok o ->
+  exists mls mx, path_maxloss r from deg l = Ok (mls, mx) /\
+    forall i c ml c', chan_at l mls (o_chans o) i c ml c' -> 0 <= ml -> cp c' <= cp c.
+Proof.
+  intros r deg from l o H.
+  destruct (pw_roadm_formula _ _ _ _ _ H) as (pl & mls & mx & _ & Hm & _ & _ & Hf).
+  exists mls, mx. split; [exact Hm |].
+  intros i c ml c' Hat Hml. rewrite (Hf i c ml c' Hat).
+  eapply Qle_trans; [apply Q.le_min_r | lra].
+Qed.
+
+Lemma pw_roadm_caps_at_target : forall r deg from l o,
+  propagate_power r deg from l = Ok o ->
+  exists pl mls mx, resolve r deg = Some pl /\ path_maxloss r from deg l = Ok (mls, mx) /\
+    forall i c ml c', chan_at l mls (o_chans o) i c ml c' -> cp c' <= chan_target pl c + coff c.
+Proof.
+  intros r deg from l o H.
+  destruct (pw_roadm_formula _ _ _ _ _ H) as (pl & mls & mx & Hres & Hm & _ & _ & Hf).
+  exists pl, mls, mx. repeat split; try assumption.
+  intros i c ml c' Hat. rewrite (Hf i c ml c' Hat). apply Q.le_min_l.
+Qed.
+
+Lemma pw_roadm_exact_when_enough_power : forall r deg from l o,
+  propagate_power r deg from l = Ok o ->
+  exists pl mls mx, resolve r deg = Some pl /\ path_maxloss r from deg l = Ok (mls, mx) /\
+    forall i c ml c', chan_at l mls (o_chans o) i c ml c' ->
+      (chan_target pl c + coff c <= cp c - ml -> cp c' == chan_target pl c + coff c) /\
+      (cp c - ml <= chan_target pl c + coff c -> cp c' == cp c - ml).
+Proof.
+  intros r deg from l o H.
+  destruct (pw_roadm_formula _ _ _ _ _ H) as (pl & mls & mx & Hres & Hm & _ & _ & Hf).
+  exists pl, mls, mx. repeat split; try assumption.
+  - intros Hle. rewrite (Hf i c ml c' H0). apply Q.min_l. exact Hle.
+  - intros Hle. rewrite (Hf i c ml c' H0). apply Q.min_r. exact Hle.
+Qed.
+
+Lemma pw_roadm_quality : forall r deg from l o,
+  propagate_power r deg from l = Ok o ->
+  length (o_chans o) = length l /\
+  forall i c c', nth_error l i = Some c -> nth_error (o_chans o) i = Some c' ->
+    cs c' = cs c /\ ca c' = ca c /\ cn c' = cn c /\
+    cf c' = cf c /\ cbaud c' = cbaud c /\ cslot c' = cslot c /\ coff c' = coff c /\
+    cpmd2 c' = cpmd2 c /\ cpdl2 c' = cpdl2 c.
+Proof.
+  intros r deg from l o H.
+  destruct (propagate_inv _ _ _ _ _ H) as (pl & mls & mx & rin & rtg & _ & Hm & _ & _ & Ho & _).
+  pose proof (path_maxloss_length _ _ _ _ _ _ Hm) as Hlen.
+  split.
+  - rewrite Ho. apply length_map_combine. exact Hlen.
+  - intros i c c' Hc Hc'.
+    assert (Hml : exists ml, nth_error mls i = Some ml).
+    { destruct (nth_error mls i) as [ml |] eqn:E; [eauto |].
+      apply nth_error_None in E. assert (i < length l)%nat by (apply nth_error_Some; congruence). lia. }
+    destruct Hml as [ml Hml]. rewrite Ho in Hc'.
+    rewrite (nth_error_map_combine _ _ _ (equalize pl) l mls i c ml Hc Hml) in Hc'.
+    inversion Hc'; subst. apply (equalize_keeps pl c ml).
+Qed.
+
+(* what the element reports: loss_pch_db is input minus output and is at least the path loss;
+   the reference channel obeys the same min rule with the largest path loss *)
+Lemma pw_roadm_reports : forall r deg from l o,
+  propagate_power r deg from l = Ok o ->
+  exists mls mx rin rtg,
+    path_maxloss r from deg l = Ok (mls, mx) /\ zfind from (refin r) = Some rin /\
+    ref_target r deg = Ok (Some rtg) /\
+    (forall ml, In ml mls -> ml <= mx) /\
+    o_ref_out o = Qmin (rin - mx) rtg /\ o_ref_loss o = rin - o_ref_out o /\ mx <= o_ref_loss o /\
+    length (o_loss o) = length l /\
+    forall i c ml c' x, chan_at l mls (o_chans o) i c ml c' -> nth_error (o_loss o) i = Some x ->
+      x = cp c - cp c' /\ ml <= x.
+Proof.
+  intros r deg from l o H.
+  destruct (propagate_inv _ _ _ _ _ H) as (pl & mls & mx & rin & rtg & Hres & Hm & Hin & Hrt & Ho & Hl & Hro & Hrl).
+  destruct (pw_roadm_formula _ _ _ _ _ H) as (pl' & mls' & mx' & Hres' & Hm' & Hlen & Hlen' & Hf).
+  rewrite Hm in Hm'. inversion Hm'; subst mls' mx'.
+  exists mls, mx, rin, rtg. repeat split; try assumption.
+  - apply (path_maxloss_max _ _ _ _ _ _ Hm).
+  - rewrite Hrl, Hro. pose proof (Q.le_min_l (rin - mx) rtg). lra.
+  - rewrite Hl. apply length_map_combine. exact Hlen'.
+  - destruct H0 as (Hc & Hml & Hc'). rewrite Hl in H1.
+    rewrite (nth_error_map_combine _ _ _ (fun cc => cp (fst cc) - cp (snd cc)) l (o_chans o) i c c' Hc Hc') in H1.
+    inversion H1. reflexivity.
+  - destruct H0 as (Hc & Hml & Hc'). rewrite Hl in H1.
+    rewrite (nth_error_map_combine _ _ _ (fun cc => cp (fst cc) - cp (snd cc)) l (o_chans o) i c c' Hc Hc') in H1.
+    inversion H1; subst x. cbn [fst snd].
+    assert (Hat : chan_at l mls (o_chans o) i c ml c') by (repeat split; assumption).
+    rewrite (Hf i c ml c' Hat). pose proof (Q.le_min_r (chan_target pl' c + coff c) (cp c - ml)). lra.
+Qed.
+
+(* ------------------------------------------------------------------ the whole crossing: powers, then PMD / PDL *)
+Lemma path_pol_inv : forall r from deg l pm pd,
+  path_pol r from deg l = Ok (pm, pd) ->
+  exists bs, get_path (rpaths r) from deg = Ok bs /\
+    broadcast (lookup_allk bpmd bs (map cf l)) (length l) = Ok pm /\
+    broadcast (lookup_allk bpdl bs (map cf l)) (length l) = Ok pd /\
+    length pm = length l /\ length pd = length l.
+Proof.
+  intros r from deg l pm pd H. unfold path_pol in H.
+  destruct (get_path (rpaths r) from deg) as [bs | e] eqn:Hp; cbn [bind] in H; [| discriminate].
+  destruct (broadcast (lookup_allk bpmd bs (map cf l)) (length l)) as [a | e] eqn:Ha; cbn [bind] in H; [| discriminate].
+  destruct (broadcast (lookup_allk bpdl bs (map cf l)) (length l)) as [b | e] eqn:Hb; cbn [bind] in H; [| discriminate].
+  inversion H; subst. exists bs. repeat split; auto; eapply broadcast_length; eassumption.
+Qed.
+
+Lemma propagate_split : forall r deg from l o,
+  propagate r deg from l = Ok o ->
+  exists o0 pm pd,
+    propagate_power r deg from l = Ok o0 /\ path_pol r from deg l = Ok (pm, pd) /\
+    length pm = length l /\ length pd = length l /\ length (o_chans o0) = length l /\
+    o_chans o = map add_pol3 (combine (o_chans o0) (combine pm pd)) /\
+    o_loss o = o_loss o0 /\ o_ref_out o = o_ref_out o0 /\ o_ref_loss o = o_ref_loss o0.
+Proof.
+  intros r deg from l o H. unfold propagate in H.
+  destruct (propagate_power r deg from l) as [o0 | e] eqn:H0; cbn [bind] in H; [| discriminate].
+  destruct (path_pol r from deg l) as [[pm pd] | e] eqn:Hp; cbn [bind] in H; [| discriminate].
+  inversion H; subst; cbn.
+  destruct (path_pol_inv _ _ _ _ _ _ Hp) as (bs & _ & _ & _ & La & Lb).
+  destruct (pw_roadm_quality _ _ _ _ _ H0) as (L0 & _).
+  exists o0, pm, pd. repeat split; auto.
+Qed.
+
+Lemma combine_length_eq : forall (A B : Type) (l : list A) (m : list B), length m = length l -> length (combine l m) = length l.
+Proof. intros A B l m H. rewrite combine_length, H. apply Nat.min_id. Qed.
+
+Lemma nth_error_in_range : forall (A : Type) (l : list A) i, (i < length l)%nat -> exists x, nth_error l i = Some x.
+Proof.
+  intros A l i H. destruct (nth_error l i) as [x |] eqn:E; [eauto |]. apply nth_error_None in E. lia.
+Qed.
+
+(* the i-th output carrier is the i-th power-equalised carrier with the i-th looked-up pmd / pdl added in quadrature *)
+Lemma propagate_nth : forall (l outs0 : list chan) (pm pd : list Q) i c',
+  length pm = length l -> length pd = length l -> length outs0 = length l ->
+  nth_error (map add_pol3 (combine outs0 (combine pm pd))) i = Some c' ->
+  exists c0 a b, nth_error outs0 i = Some c0 /\ nth_error pm i = Some a /\ nth_error pd i = Some b /\
+                 c' = add_pol c0 a b.
+Proof.
+  intros l outs0 pm pd i c' La Lb L0 H.
+  assert (Hi : (i < length l)%nat).
+  { assert (Hs : nth_error (map add_pol3 (combine outs0 (combine pm pd))) i <> None) by congruence.
+    apply nth_error_Some in Hs. rewrite map_length in Hs.
+    rewrite combine_length_eq in Hs; [lia |]. rewrite combine_length_eq; lia. }
+  destruct (nth_error_in_range _ outs0 i ltac:(lia)) as [c0 Hc0].
+  destruct (nth_error_in_range _ pm i ltac:(lia)) as [a Ha].
+  destruct (nth_error_in_range _ pd i ltac:(lia)) as [b Hb].
+  assert (Hab : nth_error (combine pm pd) i = Some (a, b)).
+  { pose proof (nth_error_map_combine _ _ _ (fun x : Q * Q => x) pm pd i a b Ha Hb) as E.
+    rewrite map_id in E. exact E. }
+  rewrite (nth_error_map_combine _ _ _ add_pol3 outs0 (combine pm pd) i c0 (a, b) Hc0 Hab) in H.
+  inversion H; subst. exists c0, a, b. repeat split; auto.
+Qed.
+
+Lemma chan_at_lift : forall r deg from l o o0 pm pd mls i c ml c',
+  propagate_power r deg from l = Ok o0 ->
+  length pm = length l -> length pd = length l -> length (o_chans o0) = length l ->
+  o_chans o = map add_pol3 (combine (o_chans o0) (combine pm pd)) ->
+  chan_at l mls (o_chans o) i c ml c' ->
+  exists c0 a b, chan_at l mls (o_chans o0) i c ml c0 /\ nth_error pm i = Some a /\ nth_error pd i = Some b /\
+                 c' = add_pol c0 a b.
+Proof.
+  intros r deg from l o o0 pm pd mls i c ml c' H0 La Lb L0 Ho (Hc & Hml & Hc').
+  rewrite Ho in Hc'. destruct (propagate_nth l (o_chans o0) pm pd i c' La Lb L0 Hc') as (c0 & a & b & Hc0 & Ha & Hb & E).
+  exists c0, a, b. repeat split; auto.
+Qed.
+
+Lemma roadm_formula : forall r deg from l o,
+  propagate r deg from l = Ok o ->
+  exists pl mls mx,
+    resolve r deg = Some pl /\ path_maxloss r from deg l = Ok (mls, mx) /\
+    length mls = length l /\ length (o_chans o) = length l /\
+    forall i c ml c', chan_at l mls (o_chans o) i c ml c' ->
+      cp c' == Qmin (chan_target pl c + coff c) (cp c - ml).
+Proof.
+  intros r deg from l o H.
+  destruct (propagate_split _ _ _ _ _ H) as (o0 & pm & pd & H0 & Hp & La & Lb & L0 & Ho & _).
+  destruct (pw_roadm_formula _ _ _ _ _ H0) as (pl & mls & mx & Hres & Hm & Lm & _ & Hf).
+  exists pl, mls, mx. repeat split; auto.
+  - rewrite Ho, map_length. rewrite combine_length_eq; [exact L0 |]. rewrite combine_length_eq; lia.
+  - intros i c ml c' Hat.
+    destruct (chan_at_lift _ _ _ _ _ _ _ _ _ _ _ _ _ H0 La Lb L0 Ho Hat) as (c0 & a & b & Hat0 & _ & _ & E).
+    subst c'. cbn [cp add_pol]. apply (Hf i c ml c0 Hat0).
 Qed.
 
 Lemma roadm_no_gain : forall r deg from l o,
@@ -200,21 +384,16 @@ Lemma roadm_quality : forall r deg from l o,
     cf c' = cf c /\ cbaud c' = cbaud c /\ cslot c' = cslot c /\ coff c' = coff c.
 Proof.
   intros r deg from l o H.
-  destruct (propagate_inv _ _ _ _ _ H) as (pl & mls & mx & rin & rtg & _ & Hm & _ & _ & Ho & _).
-  pose proof (path_maxloss_length _ _ _ _ _ _ Hm) as Hlen.
+  destruct (propagate_split _ _ _ _ _ H) as (o0 & pm & pd & H0 & Hp & La & Lb & L0 & Ho & _).
+  destruct (pw_roadm_quality _ _ _ _ _ H0) as (_ & Hq).
   split.
-  - rewrite Ho. apply length_map_combine. exact Hlen.
-  - intros i c c' Hc Hc'.
-    assert (Hml : exists ml, nth_error mls i = Some ml).
-    { destruct (nth_error mls i) as [ml |] eqn:E; [eauto |].
-      apply nth_error_None in E. assert (i < length l)%nat by (apply nth_error_Some; congruence). lia. }
-    destruct Hml as [ml Hml]. rewrite Ho in Hc'.
-    rewrite (nth_error_map_combine _ _ _ (equalize pl) l mls i c ml Hc Hml) in Hc'.
-    inversion Hc'; subst. apply (equalize_keeps pl c ml).
+  - rewrite Ho, map_length. rewrite combine_length_eq; [exact L0 |]. rewrite combine_length_eq; lia.
+  - intros i c c' Hc Hc'. rewrite Ho in Hc'.
+    destruct (propagate_nth l (o_chans o0) pm pd i c' La Lb L0 Hc') as (c0 & a & b & Hc0 & _ & _ & E).
+    subst c'. cbn [cs ca cn cf cbaud cslot coff add_pol].
+    destruct (Hq i c c0 Hc Hc0) as (A1 & A2 & A3 & A4 & A5 & A6 & A7 & _). repeat split; assumption.
 Qed.
 
-(* what the element reports: loss_pch_db is input minus output and is at least the path loss;
-   the reference channel obeys the same min rule with the largest path loss *)
 Lemma roadm_reports : forall r deg from l o,
   propagate r deg from l = Ok o ->
   exists mls mx rin rtg,
@@ -227,21 +406,41 @@ Lemma roadm_reports : forall r deg from l o,
       x = cp c - cp c' /\ ml <= x.
 Proof.
   intros r deg from l o H.
-  destruct (propagate_inv _ _ _ _ _ H) as (pl & mls & mx & rin & rtg & Hres & Hm & Hin & Hrt & Ho & Hl & Hro & Hrl).
-  destruct (roadm_formula _ _ _ _ _ H) as (pl' & mls' & mx' & Hres' & Hm' & Hlen & Hlen' & Hf).
-  rewrite Hm in Hm'. inversion Hm'; subst mls' mx'.
-  exists mls, mx, rin, rtg. repeat split; try assumption.
-  - apply (path_maxloss_max _ _ _ _ _ _ Hm).
-  - rewrite Hrl, Hro. pose proof (Q.le_min_l (rin - mx) rtg). lra.
-  - rewrite Hl. apply length_map_combine. exact Hlen'.
-  - destruct H0 as (Hc & Hml & Hc'). rewrite Hl in H1.
-    rewrite (nth_error_map_combine _ _ _ (fun cc => cp (fst cc) - cp (snd cc)) l (o_chans o) i c c' Hc Hc') in H1.
-    inversion H1. reflexivity.
-  - destruct H0 as (Hc & Hml & Hc'). rewrite Hl in H1.
-    rewrite (nth_error_map_combine _ _ _ (fun cc => cp (fst cc) - cp (snd cc)) l (o_chans o) i c c' Hc Hc') in H1.
-    inversion H1; subst x. cbn [fst snd].
-    assert (Hat : chan_at l mls (o_chans o) i c ml c') by (repeat split; assumption).
-    rewrite (Hf i c ml c' Hat). pose proof (Q.le_min_r (chan_target pl' c + coff c) (cp c - ml)). lra.
+  destruct (propagate_split _ _ _ _ _ H) as (o0 & pm & pd & H0 & Hp & La & Lb & L0 & Ho & El & Er & Erl).
+  destruct (pw_roadm_reports _ _ _ _ _ H0) as (mls & mx & rin & rtg & Hm & Hin & Hrt & Hmx & Hro & Hrl & Hge & Ll & Hx).
+  exists mls, mx, rin, rtg. rewrite El, Er, Erl. repeat split; auto.
+  - destruct (chan_at_lift _ _ _ _ _ _ _ _ _ _ _ _ _ H0 La Lb L0 Ho H1) as (c0 & a & b & Hat0 & _ & _ & E).
+    subst c'. cbn [cp add_pol]. apply (Hx i c ml c0 x Hat0 H2).
+  - destruct (chan_at_lift _ _ _ _ _ _ _ _ _ _ _ _ _ H0 La Lb L0 Ho H1) as (c0 & a & b & Hat0 & _ & _ & E).
+    apply (Hx i c ml c0 x Hat0 H2).
+Qed.
+
+(* PMD / PDL: the crossing adds exactly the looked-up 'roadm-pmd' / 'roadm-pdl' in quadrature and never lowers them *)
+Lemma roadm_pmd_pdl : forall r deg from l o,
+  propagate r deg from l = Ok o ->
+  exists pm pd, path_pol r from deg l = Ok (pm, pd) /\ length pm = length l /\ length pd = length l /\
+    forall i c c', nth_error l i = Some c -> nth_error (o_chans o) i = Some c' ->
+      exists a b, nth_error pm i = Some a /\ nth_error pd i = Some b /\
+        cpmd2 c' = cpmd2 c + a * a /\ cpdl2 c' = cpdl2 c + b * b /\
+        cpmd2 c <= cpmd2 c' /\ cpdl2 c <= cpdl2 c'.
+Proof.
+  intros r deg from l o H.
+  destruct (propagate_split _ _ _ _ _ H) as (o0 & pm & pd & H0 & Hp & La & Lb & L0 & Ho & _).
+  destruct (pw_roadm_quality _ _ _ _ _ H0) as (_ & Hq).
+  exists pm, pd. repeat split; auto.
+  intros i c c' Hc Hc'. rewrite Ho in Hc'.
+  destruct (propagate_nth l (o_chans o0) pm pd i c' La Lb L0 Hc') as (c0 & a & b & Hc0 & Ha & Hb & E).
+  destruct (Hq i c c0 Hc Hc0) as (_ & _ & _ & _ & _ & _ & _ & E1 & E2).
+  exists a, b. subst c'. cbn [cpmd2 cpdl2 add_pol]. rewrite E1, E2. repeat split; auto.
+  - nra.
+  - nra.
+Qed.
+
+(* unsquared reading: for non-negative x, y with x^2 = pmd^2 before and y^2 = pmd^2 after, x <= y *)
+Lemma sq_le_le : forall x y, 0 <= x -> 0 <= y -> x * x <= y * y -> x <= y.
+Proof.
+  intros x y Hx Hy H. destruct (Qlt_le_dec y x) as [Hlt | Hle]; [| exact Hle].
+  exfalso. assert (y * y < x * x) by nra. lra.
 Qed.
 
 (* ------------------------------------------------------------------ impairment lookup *)
@@ -302,6 +501,69 @@ Proof.
   subst mls.
   assert (Hcf : nth_error (map cf l) i = Some (cf c)) by (rewrite nth_error_map, Hc; reflexivity).
   exact (Forall2_nth _ _ _ _ _ i (cf c) ml HF Hcf Hml).
+Qed.
+
+(* the same for 'roadm-pmd' / 'roadm-pdl' (default None: an entry without the key is skipped) *)
+Lemma lookup1k_spec : forall sel bs f q,
+  lookup1k sel bs f = Some q ->
+  exists pre b post, bs = pre ++ b :: post /\ in_band b f = true /\ sel b = Val q /\
+    Forall (fun b' => in_band b' f = false \/ kv_val (sel b') = None) pre.
+Proof.
+  intros sel. induction bs as [| b bs IH]; intros f q H; [discriminate |].
+  cbn in H. destruct (in_band b f) eqn:Eb.
+  - destruct (kv_val (sel b)) as [v |] eqn:Ev.
+    + inversion H; subst. exists [], b, bs. repeat split; auto.
+      destruct (sel b); cbn in Ev; try discriminate. inversion Ev. reflexivity.
+    + destruct (IH f q H) as (pre & b0 & post & E & Hi & Hv & Hall).
+      exists (b :: pre), b0, post. subst. repeat split; auto.
+  - destruct (IH f q H) as (pre & b0 & post & E & Hi & Hv & Hall).
+    exists (b :: pre), b0, post. subst. repeat split; auto.
+Qed.
+
+Lemma lookup_allk_covered : forall sel bs fs,
+  Forall (fun f => lookup1k sel bs f <> None) fs ->
+  Forall2 (fun f q => lookup1k sel bs f = Some q) fs (lookup_allk sel bs fs).
+Proof.
+  intros sel bs fs H. induction H as [| f fs Hf _ IH]; cbn.
+  - constructor.
+  - destruct (lookup1k sel bs f) as [q |] eqn:E; [| congruence]. cbn. constructor; assumption.
+Qed.
+
+Lemma broadcast_full : forall raw n mls, length raw = n -> broadcast raw n = Ok mls -> mls = raw.
+Proof.
+  intros raw n mls Hl H. unfold broadcast in H. destruct raw as [| q [| q' t]].
+  - discriminate.
+  - inversion H. cbn in Hl. subst n. reflexivity.
+  - rewrite Hl, Nat.eqb_refl in H. inversion H. reflexivity.
+Qed.
+
+Lemma covered_nth : forall sel bs (l : list chan) vals i c v,
+  Forall (fun c => lookup1k sel bs (cf c) <> None) l ->
+  broadcast (lookup_allk sel bs (map cf l)) (length l) = Ok vals ->
+  nth_error l i = Some c -> nth_error vals i = Some v -> lookup1k sel bs (cf c) = Some v.
+Proof.
+  intros sel bs l vals i c v Hcov Hb Hc Hv.
+  assert (Hcov' : Forall (fun f => lookup1k sel bs f <> None) (map cf l)).
+  { apply Forall_forall. intros f Hf. apply in_map_iff in Hf. destruct Hf as (c0 & E & Hin). subst.
+    rewrite Forall_forall in Hcov. apply Hcov. exact Hin. }
+  pose proof (lookup_allk_covered sel bs (map cf l) Hcov') as HF.
+  assert (Hlen : length (lookup_allk sel bs (map cf l)) = length l).
+  { apply Forall2_len in HF. rewrite map_length in HF. symmetry. exact HF. }
+  rewrite (broadcast_full _ _ _ Hlen Hb) in Hv.
+  assert (Hcf : nth_error (map cf l) i = Some (cf c)) by (rewrite nth_error_map, Hc; reflexivity).
+  exact (Forall2_nth _ _ _ _ _ i (cf c) v HF Hcf Hv).
+Qed.
+
+Lemma pol_per_band : forall r from deg l pm pd bs,
+  path_pol r from deg l = Ok (pm, pd) -> get_path (rpaths r) from deg = Ok bs ->
+  Forall (fun c => lookup1k bpmd bs (cf c) <> None) l -> Forall (fun c => lookup1k bpdl bs (cf c) <> None) l ->
+  forall i c a b, nth_error l i = Some c -> nth_error pm i = Some a -> nth_error pd i = Some b ->
+    lookup1k bpmd bs (cf c) = Some a /\ lookup1k bpdl bs (cf c) = Some b.
+Proof.
+  intros r from deg l pm pd bs H Hp C1 C2 i c a b Hc Ha Hb.
+  destruct (path_pol_inv _ _ _ _ _ _ H) as (bs' & Hp' & B1 & B2 & _ & _).
+  rewrite Hp in Hp'. inversion Hp'; subst bs'.
+  split; [eapply covered_nth with (vals := pm) | eapply covered_nth with (vals := pd)]; eassumption.
 Qed.
 
 (* ------------------------------------------------------------------ target resolution *)
